@@ -5,6 +5,7 @@
 (*   marker  a marker template (m) and its plain twin (p) through the bundled engine, the plain twin also  *)
 (*           through stock (s); pre / ws / post are the literals chosen by the enumerator                  *)
 (*   assert  `assert e` through the bundled engine (b), the ordinary conditional through stock (s)         *)
+(*   filter  one filter call on one input shape through the bundled engine (b) and through stock (s)      *)
 (*   ifuses  a use-query chain through the bundled engine (b), the plain if/elif/else through stock (s)    *)
 (* An outcome is [ok |-> 1, out |-> code points] or [ok |-> 0, exc |-> class name].                        *)
 (* Rejections are printed and the run continues; clauses starting with "drift:" are I-layer mismatches,   *)
@@ -50,11 +51,28 @@ VIfuses(r) ==
        ELSE IF ChainI(r.cl, r.else) # sel THEN "drift:jinja.ifuses.impl"
        ELSE "ok"
 
+(* filter sweep: `indent` against the specification's Indent (which must itself equal the stock rendering) and   *)
+(* against stock; `lineprefix` used as an ordinary filter against LinePrefixOK / ImplLP; the legacy spelling must *)
+(* fail where upstream fails; every other filter: same as stock.                                                *)
+VFilter(r) ==
+    CASE r.fam = "indent" ->
+           LET exp == Indent(r.input, r.fw, r.first, r.blank)
+           IN IF r.s.ok = 0 \/ r.s.out # exp THEN "harness.filter.indent"
+              ELSE IF r.b.ok = 0 \/ r.b.out # exp THEN "jinja.same"
+              ELSE "ok"
+      [] r.fam = "lineprefix" ->
+           IF r.b.ok = 0 \/ ~LinePrefixOK(r.b.out, r.input, r.ws) THEN "jinja.lineprefix"
+           ELSE IF r.b.out # ImplLP(r.input, r.ws) THEN "drift:jinja.lineprefix.impl"
+           ELSE "ok"
+      [] r.fam = "fails" -> IF r.s.ok = 1 THEN "harness.filter.legacy" ELSE IF r.b.ok = 1 THEN "jinja.same" ELSE "ok"
+      [] OTHER -> IF Same(r.b, r.s) THEN "ok" ELSE "jinja.same"
+
 Verdict(r) ==
     CASE r.k = "same" -> VSame(r)
       [] r.k = "marker" -> <<VMarker(r), IF r.p.ok = 1 /\ r.m.ok = 0 THEN 1 ELSE IF r.p.ok = 0 THEN 2 ELSE 3>>
       [] r.k = "assert" -> <<VAssert(r), 0>>
       [] r.k = "ifuses" -> <<VIfuses(r), 0>>
+      [] r.k = "filter" -> <<VFilter(r), 0>>
       [] OTHER -> <<"harness.kind", 0>>
 
 TInit == l = 1
